@@ -51,6 +51,7 @@ class Target:
         self.anomalies = []
         self.faults = {}
         self.unsupported = set()  # command names this (still conformant) logical unit does not implement
+        self.inquiry_or = {}  # offset -> bits set on top of the encoded standard INQUIRY data (obsolete flags of older standards: LINKED, RELADR, MCHNGR ...)
         self.granule = 1  # provisioning granularity in blocks: GET LBA STATUS answers with the whole granule that holds the LBA asked for
         self.block_limits = None  # values of the Block Limits VPD page (B0h) when the unit has one
         self.n = 0
@@ -70,7 +71,11 @@ class Target:
                   "additional_length": self.inquiry_length - 5, "_total": min(self.inquiry_length, 96), "t10_vendor_identification": self.vendor, "product_identification": self.product,
                   "product_revision_level": self.rev, "cmdque": 1})
         # beyond byte 95: vendor specific parameters (ADDITIONAL LENGTH up to 255, i.e. up to 260 bytes)
-        return f.encode(v) + bytes((0xA0 + i) & 0xFF for i in range(max(0, self.inquiry_length - 96)))
+        out = bytearray(f.encode(v) + bytes((0xA0 + i) & 0xFF for i in range(max(0, self.inquiry_length - 96))))
+        for off, bits in self.inquiry_or.items():
+            if off < len(out):
+                out[off] |= bits
+        return bytes(out)
 
     def read_block(self, lba):
         return self.store.get(lba, bytes(self.bs))
